@@ -39,10 +39,12 @@ def _ome_mods():
 
 
 def ad_tower(v, sec, k, q, nf, fl, var, n):
-    """The array returned by the dispatcher of (variant, sector) at perturbative order (k, q)."""
+    """The array returned by the dispatcher of (variant, sector) at perturbative order (k, q).
+
+    `var` is a variation index (see var_tuple / VarTuple in EkoreLaws.tla) or the tuple itself."""
     us, ut, ps = _ad_mods()
     use_fh = fl != "eko"
-    vt = var_tuple(fl, var)
+    vt = tuple(var) if isinstance(var, (tuple, list)) else var_tuple(fl, var)
     if v == "us":
         if sec == "S":
             return us.gamma_singlet((k, 0), n, nf, vt, use_fh)
